@@ -70,8 +70,7 @@ HSCALES = (1.0, 1e-4, 1e4)      # path loss makes real channels tiny
 def members(tier):
     """(family member, channel scale factor) pairs"""
     if tier == "thorough":
-        return [(s_, HSCALES[s_ % 3]) for s_ in range(12)] + \
-            [(0, 1e-4), (0, 1e4), (1, 1.0), (1, 1e4), (2, 1.0), (2, 1e-4)]
+        return [(s_, HSCALES[s_ % 3]) for s_ in range(9)] + [(0, 1e-4)]
     return [(0, 1.0), (1, 1e-4), (2, 1e4)]
 ITERATIVE = ("AlternatingMinIASolver", "MinLeakageIASolver", "MaxSinrIASolver", "MMSEIASolver")
 
@@ -197,13 +196,15 @@ def obj_array(seq):
     return a
 
 
-def _scaled(o):
+def _scaled(o, seen=None):
     """replace every float array / scalar of an object graph by (decimal exponent of its
     largest magnitude, mantissas): bfs.digest rounds to absolute decimals, which would merge
     states that differ only in tiny-valued arrays (P = 1e-10, channels scaled by 1e-4)"""
+    if seen is None:
+        seen = {}
     if isinstance(o, np.ndarray):
         if o.dtype == object:
-            return ["<objarr>", list(o.shape)] + [_scaled(e) for e in o.ravel().tolist()]
+            return ["<objarr>", list(o.shape)] + [_scaled(e, seen) for e in o.ravel().tolist()]
         if o.dtype.kind in "fc" and o.size:
             fin = np.abs(o[np.isfinite(o)])
             m = float(fin.max()) if fin.size else 0.0
@@ -218,13 +219,16 @@ def _scaled(o):
             return ["<num>", e, o / 10.0 ** e]
         return o
     if isinstance(o, (list, tuple)):
-        return [_scaled(e) for e in o]
+        return [_scaled(e, seen) for e in o]
     if isinstance(o, dict):
-        return {k: _scaled(v) for k, v in o.items()}
+        return {k: _scaled(v, seen) for k, v in o.items()}
     if isinstance(o, np.random.RandomState) or o is None or isinstance(o, (str, bytes, int, bool, np.integer)):
         return o
     if hasattr(o, "__dict__") and not callable(o):
-        return ["<obj>", type(o).__name__, {k: _scaled(v) for k, v in vars(o).items()}]
+        if id(o) in seen:       # the channel object is shared by the solver and its sub-solvers
+            return ["<same object as>", seen[id(o)]]
+        seen[id(o)] = len(seen)
+        return ["<obj>", type(o).__name__, {k: _scaled(v, seen) for k, v in vars(o).items()}]
     return o
 
 
@@ -310,10 +314,12 @@ def e1_cases(tier):
                                                   and isinstance(Ns, int)):
                     continue
                 powers = list(PDECADES) + [list(PMIX[:K])] + \
-                    ([None, 0.5, list(PVEC[:K]), list(PMIX2[:K])] if thorough else [])
+                    ([None, list(PVEC[:K]), list(PMIX2[:K])] if thorough else [])
                 for P in powers:
                     for noise in noises:
-                        for (s, hs) in mem:
+                        for mi, (s, hs) in enumerate(mem):
+                            if noise == 1.0 and mi >= 3:
+                                continue        # second noise level: first three members only
                             # quick: MaxSinr / MMSE (no cost sequence to follow) skip 3 and 10
                             its = ITERS if (thorough or name in ITERATIVE[:2]) else (1, 2, 5, 20)
                             iters = ([0] if init in ("random", "svd") else []) + list(its)
@@ -558,8 +564,10 @@ def e3_bases(tier):
         dict(solver="MinLeakageIASolver", K=3, Nr=[2, 2, 2], Nt=[2, 2, 2], Ns=1, init="closed_form", n=2,
              P0=1.0, noise=None),
     ]
-    members = [0, 1] if tier == "thorough" else [0]
-    return [dict(x, part="E3", s=s) for s in members for x in b]
+    out = [dict(x, part="E3", s=0) for x in b]
+    if tier == "thorough":
+        out += [dict(x, part="E3", s=1) for x in b[:4]]      # second channel member: small bases
+    return out
 
 
 READS = ("full_F", "full_W_H", "full_W", "W", "W_H")
